@@ -32,7 +32,7 @@ def known_decls():
     """every uninterpreted function / constant declared by the engine's modules, by name"""
     from . import absobj, layout, models
 
-    out = {}
+    out = {"ceil_div": z3.Function("ceil_div", z3.IntSort(), z3.IntSort(), z3.IntSort())}
     for mod in (ops, models, absobj, layout):
         for v in vars(mod).values():
             if isinstance(v, z3.FuncDeclRef):
